@@ -98,16 +98,17 @@ def gen_case(rng):
     rows = rng.choice([1, 2, 3, 4, 5, 6, 7, 9])
     cols = rng.choice([1, 2, 3, 4, 5, 6, 8, 9])
     nb = rng.choice([1, 1, 1, 2, 3])
-    dtype = rng.choice(["uint8", "int16", "float32", "float32"])
+    dtype = rng.choice(["uint8", "int16", "uint16", "float32", "float32", "float64"])
+    isfloat = dtype in ("float32", "float64")
     # nodata value
-    if dtype == "float32":
+    if isfloat:
         nodata = rng.choice(["nan", "nan", "inf", "-inf", -9999, 0, 2, "5/2", "-3/4"])
     else:
         nodata = rng.choice([-9999, 0, 0, 2, 3, "nan", "inf"])
     dense = rng.random() < 0.25
 
     def sample():
-        if dtype == "uint8":
+        if dtype in ("uint8", "uint16"):
             return rng.randrange(0, 6)
         if dtype == "int16":
             return rng.randrange(-4, 7)
@@ -120,7 +121,7 @@ def gen_case(rng):
     bands = [[[sample() for _ in range(cols)] for _ in range(rows)] for _ in range(nb)]
     # plant the nodata value (borders, blobs) unless this case is meant to have nothing to flag
     nothing = rng.random() < 0.2
-    representable = not (dtype != "float32" and isinstance(nodata, str)) and not (dtype == "uint8" and nodata == -9999)
+    representable = not (not isfloat and isinstance(nodata, str)) and not (dtype in ("uint8", "uint16") and nodata == -9999)
     for b in range(nb):
         for r in range(rows):
             for c in range(cols):
@@ -486,7 +487,7 @@ def run(ctx, report, status):
     report.rule = (
         "window stream: every well-formed ROI with corners in [-3, size+3] and margins 0..2 on one axis (other axis: "
         "inside / at both edges / outside) of a 5x6 (quick) image through the real get_window; dataset stream: random "
-        "rasters 1-9 x 1-9, 1-3 bands, uint8/int16/float32 with NaN/+-inf samples, nodata in {-9999,0,2,3,5/2,-3/4,NaN,+-inf} "
+         "rasters 1-9 x 1-9, 1-3 bands, uint8/int16/uint16/float32/float64 with NaN/+-inf samples, nodata in {-9999,0,2,3,5/2,-3/4,NaN,+-inf} "
         "planted at borders, int16/uint8 masks with values -3..3, disparity pair/grid/none, classification, segmentation, "
         "ROI (inside, clipped, touching the edge exactly, outside) written with rasterio and read by the real "
         "create_dataset_from_inputs; non-trivial = has nodata pixels, a mask, a disparity or a ROI; distinct by full case"
